@@ -928,6 +928,77 @@ class Fn:
             return True
         return any(self.has_ret(x) for x in n.get('inner', []))
 
+    def assigned_in(self, branches):
+        """variables (incl. eff_out / mem_out / out-parameters) a statement list may assign, minus the ones it declares itself"""
+        tu = self.tu
+        vs = []
+        def add(v):
+            if v not in vs:
+                vs.append(v)
+        def assigned(n):
+            if n is None:
+                return
+            k = n.get('kind')
+            if (k == 'BinaryOperator' and n.get('opcode') == '=') or k == 'CompoundAssignOperator' or (k == 'UnaryOperator' and n.get('opcode') in ('++', '--')):
+                try:
+                    add(self.assign_target(n['inner'][0]))
+                except TranslateError:
+                    pass
+            if self.is_mem_store(n):
+                add('eff_out')
+                return
+            if self.mem and ((k in ('BinaryOperator', 'CompoundAssignOperator', 'UnaryOperator') and (n.get('opcode') in ('=', '++', '--') or k == 'CompoundAssignOperator') and self.lhs_member(n)) or (k == 'CallExpr' and self.callee_name(n) in tu.SIG)):
+                add('mem_out')
+            if k == 'CallExpr':
+                cn = self.callee_name(n)
+                sg = tu.SIG.get(cn)
+                if sg and sg.get('eff'):
+                    add('eff_out')
+                if sg:
+                    for i, a in enumerate(n['inner'][1:]):
+                        a2 = strip(a)
+                        if sg['pnames'][i] in sg['outs']:
+                            if a2.get('kind') == 'UnaryOperator' and a2.get('opcode') == '&':
+                                v = strip(a2['inner'][0])
+                                if v.get('kind') == 'DeclRefExpr':
+                                    add(v['referencedDecl']['name'])
+                            elif a2.get('kind') == 'DeclRefExpr' and a2['referencedDecl']['name'] in self.pnames:
+                                add(a2['referencedDecl']['name'] + '_out')
+                if cn == '__builtin_umull_overflow':
+                    a2 = strip(n['inner'][3])
+                    if a2.get('kind') == 'UnaryOperator':
+                        add(strip(a2['inner'][0])['referencedDecl']['name'])
+                    else:
+                        add(a2['referencedDecl']['name'] + '_out')
+            if k in ('CompoundStmt', 'IfStmt'):
+                for x in n.get('inner', []):
+                    if self.is_eff_call(x):
+                        add('eff_out')
+            if k == 'CallExpr':
+                for a in n['inner'][1:]:
+                    a2 = strip(a)
+                    if a2.get('kind') == 'DeclRefExpr' and a2['referencedDecl']['name'] in self.abs:
+                        add(a2['referencedDecl']['name'] + '_out')
+            for x in n.get('inner', []):
+                assigned(x)
+        for br in branches:
+            assigned(br)
+        for br in branches:
+            if br is not None and self.is_eff_call(br):
+                add('eff_out')
+        decl = set()
+        def declared(n):
+            if n is None:
+                return
+            if n.get('kind') == 'VarDecl':
+                decl.add(n['name'])
+            for x in n.get('inner', []):
+                declared(x)
+        for br in branches:
+            declared(br)
+        vs = [v for v in vs if v not in decl]
+        return vs
+
     def stmts(self, ss):
         tu = self.tu
         if not ss:
@@ -972,70 +1043,7 @@ class Fn:
             cc = self.cond(c)
             pre = self.flush()
             if not self.has_ret(th) and not self.has_ret(el):
-                vs = []
-                def add(v):
-                    if v not in vs:
-                        vs.append(v)
-                def assigned(n):
-                    if n is None:
-                        return
-                    k = n.get('kind')
-                    if (k == 'BinaryOperator' and n.get('opcode') == '=') or k == 'CompoundAssignOperator' or (k == 'UnaryOperator' and n.get('opcode') in ('++', '--')):
-                        try:
-                            add(self.assign_target(n['inner'][0]))
-                        except TranslateError:
-                            pass
-                    if self.is_mem_store(n):
-                        add('eff_out')
-                        return
-                    if self.mem and ((k in ('BinaryOperator', 'CompoundAssignOperator', 'UnaryOperator') and (n.get('opcode') in ('=', '++', '--') or k == 'CompoundAssignOperator') and self.lhs_member(n)) or (k == 'CallExpr' and self.callee_name(n) in tu.SIG)):
-                        add('mem_out')
-                    if k == 'CallExpr':
-                        cn = self.callee_name(n)
-                        sg = tu.SIG.get(cn)
-                        if sg and sg.get('eff'):
-                            add('eff_out')
-                        if sg:
-                            for i, a in enumerate(n['inner'][1:]):
-                                a2 = strip(a)
-                                if sg['pnames'][i] in sg['outs']:
-                                    if a2.get('kind') == 'UnaryOperator' and a2.get('opcode') == '&':
-                                        v = strip(a2['inner'][0])
-                                        if v.get('kind') == 'DeclRefExpr':
-                                            add(v['referencedDecl']['name'])
-                                    elif a2.get('kind') == 'DeclRefExpr' and a2['referencedDecl']['name'] in self.pnames:
-                                        add(a2['referencedDecl']['name'] + '_out')
-                        if cn == '__builtin_umull_overflow':
-                            a2 = strip(n['inner'][3])
-                            if a2.get('kind') == 'UnaryOperator':
-                                add(strip(a2['inner'][0])['referencedDecl']['name'])
-                            else:
-                                add(a2['referencedDecl']['name'] + '_out')
-                    if k in ('CompoundStmt', 'IfStmt'):
-                        for x in n.get('inner', []):
-                            if self.is_eff_call(x):
-                                add('eff_out')
-                    if k == 'CallExpr':
-                        for a in n['inner'][1:]:
-                            a2 = strip(a)
-                            if a2.get('kind') == 'DeclRefExpr' and a2['referencedDecl']['name'] in self.abs:
-                                add(a2['referencedDecl']['name'] + '_out')
-                    for x in n.get('inner', []):
-                        assigned(x)
-                assigned(th); assigned(el)
-                for br in (th, el):
-                    if br is not None and self.is_eff_call(br):
-                        add('eff_out')
-                decl = set()
-                def declared(n):
-                    if n is None:
-                        return
-                    if n.get('kind') == 'VarDecl':
-                        decl.add(n['name'])
-                    for x in n.get('inner', []):
-                        declared(x)
-                declared(th); declared(el)
-                vs = [v for v in vs if v not in decl]
+                vs = self.assigned_in([th, el])
                 if vs:
                     tup = '(' + ', '.join(vs) + ')' if len(vs) > 1 else vs[0]
                     saved_locals = set(self.locals)
@@ -1053,6 +1061,38 @@ class Fn:
             self.locals = set(saved_locals)
             b = self.stmts([el] + rest) if el else self.stmts(rest)
             return pre + f'if {cc} then\n{ind(a)}\nelse\n{ind(b)}'
+        if kd == 'WhileStmt':
+            # `while (c) body` (no return / break / continue / goto inside; `c` without side effects): the variables the body assigns are
+            # the loop state; the loop is `whileN fuel cond step state` (Gen/Prelude.lean) with fuel 2^64 - more iterations than any
+            # loop over a size_t counter can make
+            c = s['inner'][0]; body = s['inner'][1]
+            def jumps(n):
+                if n is None:
+                    return False
+                if n.get('kind') in ('ReturnStmt', 'BreakStmt', 'ContinueStmt', 'GotoStmt'):
+                    return True
+                return any(jumps(x) for x in n.get('inner', []))
+            if jumps(body):
+                raise TranslateError('jump inside while loop')
+            vs = self.assigned_in([body])
+            if not vs:
+                raise TranslateError('while loop without state')
+            if self.pre:
+                raise TranslateError('pending effects before while')
+            saved_locals = set(self.locals)
+            cc = self.cond(c)
+            if self.pre:
+                raise TranslateError('while condition with side effects')
+            tup = '(' + ', '.join(vs) + ')' if len(vs) > 1 else vs[0]
+            def proj(i):
+                if len(vs) == 1:
+                    return 'st_'
+                return 'st_' + '.2' * i + ('.1' if i < len(vs) - 1 else '')
+            unpack = ''.join(f'let {v} := {proj(i)}\n' for i, v in enumerate(vs))
+            b = self.stmts_join([body], tup)
+            self.locals = saved_locals
+            return (f'let {tup} := whileN {2**64} (fun st_ =>\n{ind(unpack + "decide (" + cc + ")")}) (fun st_ =>\n{ind(unpack + b)}) {tup}\n'
+                    + self.stmts(rest))
         if kd == 'UnaryOperator' and s['opcode'] in ('--', '++') and self.lhs_member(s):
             self.expr(s)
             return self.flush() + self.stmts(rest)
